@@ -310,7 +310,7 @@ fn check_c_api(rep: &mut Report, c: &Case, input: &[u8], in_chunk: usize, out_ch
 }
 
 pub fn run(ctx: &Ctx, rep: &mut Report) {
-    let n = ctx.n(3000, 480_000);
+    let n = ctx.n(12_000, 480_000);
     for k in ctx.cases(n) {
         rep.cur_case = k;
         crate::ctx::begin_case(k);
